@@ -172,6 +172,25 @@ func discharge(o *Obligation, dir string, timeoutMs int, thorough bool) {
 		if firstErr != "" {
 			o.Status = "error"
 			o.Model = firstErr
+		} else if o.Expect == "unsat" {
+			// undecided: look for a candidate counterexample without the quantified facts; it proves nothing by
+			// itself (the dropped facts could exclude it) and is only used to build a replay on the real code
+			var b strings.Builder
+			for _, ln := range strings.Split(o.Script, "\n") {
+				if strings.HasPrefix(ln, "(assert") && (strings.Contains(ln, "(forall ") || strings.Contains(ln, "(exists ")) {
+					continue
+				}
+				b.WriteString(ln)
+				b.WriteString("\n")
+			}
+			cf := file + ".cand.smt2"
+			if os.WriteFile(cf, []byte(b.String()), 0o644) == nil {
+				r := runSolver(ctx, solvers[0], cf, 3000)
+				if r.status == "sat" {
+					o.Candidate = modelOf(r)
+				}
+				os.Remove(cf)
+			}
 		}
 	}
 	if o.Status == "unsat" || (o.Status == "sat" && o.Expect == "sat") {
